@@ -215,6 +215,8 @@ type Access<'w, 's> = (
     // A param with non-trivial validation (`valid 0|1` scenario lines empty / fill the match): the crate runs its
     // systems whether or not Bevy's `validate_param` holds, and never loses them.
     Populated<'w, 's, Entity, With<VMark>>,
+    // how many entities carry each reactive component: with exactly one, the `single*` accessors are used half of the time
+    Query<'w, 's, Entity, With<React<Comp<0>>>>, Query<'w, 's, Entity, With<React<Comp<1>>>>,
 );
 
 /// Marks the one entity matched by every scripted system's `Populated` param.
@@ -287,7 +289,16 @@ fn spawn_scripted(c: &mut Commands, def: usize) -> Option<SystemCommand>
 {
     let excl = SH.with(|s| s.borrow().defs.get(def).map(|d| d.excl))?;
     let name = next_system_name();
-    let sys = if excl { c.spawn_system_command(make_exclusive(def, name)) } else { c.spawn_system_command(make_ordinary(def, name, None)) };
+    // both spawning entry points: from a system, or from a ready-made callback (alternating by name)
+    let sys = if name % 2 == 0
+    {
+        if excl { c.spawn_system_command(make_exclusive(def, name)) } else { c.spawn_system_command(make_ordinary(def, name, None)) }
+    }
+    else
+    {
+        if excl { c.spawn_system_command_from(SystemCommandCallback::new(make_exclusive(def, name))) }
+        else { c.spawn_system_command_from(SystemCommandCallback::new(make_ordinary(def, name, None))) }
+    };
     new_system_name(*sys);
     mark_ready(c, *sys);
     Some(sys)
@@ -401,7 +412,9 @@ fn interpret(c: &mut Commands, ctx: &mut Ctx, act: &SAct)
         {
             let Some(e) = resolve(*r) else { return };
             let Ctx::Full(acc) = ctx else { log("unsupported-in-exclusive".into()); return };
-            if *ty == 0 { if let Ok(x) = acc.0.get_noreact(e) { x.0 = *v; } } else { if let Ok(x) = acc.1.get_noreact(e) { x.0 = *v; } }
+            let single = *v % 2 == 0 && if *ty == 0 { acc.5.iter().count() == 1 && acc.5.contains(e) } else { acc.6.iter().count() == 1 && acc.6.contains(e) };
+            if single { if *ty == 0 { acc.0.single_noreact().1.0 = *v; } else { acc.1.single_noreact().1.0 = *v; } }
+            else if *ty == 0 { if let Ok(x) = acc.0.get_noreact(e) { x.0 = *v; } } else { if let Ok(x) = acc.1.get_noreact(e) { x.0 = *v; } }
         }
         SAct::ResNr(ty, v) =>
         {
@@ -412,20 +425,26 @@ fn interpret(c: &mut Commands, ctx: &mut Ctx, act: &SAct)
         {
             let Some(e) = resolve(*r) else { return };
             let Ctx::Full(acc) = ctx else { log("unsupported-in-exclusive".into()); return };
-            if *ty == 0 { if let Ok(x) = acc.0.get_mut(c, e) { x.0 = *v; } } else { if let Ok(x) = acc.1.get_mut(c, e) { x.0 = *v; } }
+            let single = *v % 2 == 0 && if *ty == 0 { acc.5.iter().count() == 1 && acc.5.contains(e) } else { acc.6.iter().count() == 1 && acc.6.contains(e) };
+            if single { if *ty == 0 { acc.0.single_mut(c).1.0 = *v; } else { acc.1.single_mut(c).1.0 = *v; } }
+            else if *ty == 0 { if let Ok(x) = acc.0.get_mut(c, e) { x.0 = *v; } } else { if let Ok(x) = acc.1.get_mut(c, e) { x.0 = *v; } }
         }
         SAct::SetNeq(r, ty, v) =>
         {
             let Some(e) = resolve(*r) else { return };
             let Ctx::Full(acc) = ctx else { log("unsupported-in-exclusive".into()); return };
-            let old = if *ty == 0 { acc.0.set_if_neq(c, e, Comp::<0>(*v)).map(|x| x.0) } else { acc.1.set_if_neq(c, e, Comp::<1>(*v)).map(|x| x.0) };
+            let single = *v % 2 == 0 && if *ty == 0 { acc.5.iter().count() == 1 && acc.5.contains(e) } else { acc.6.iter().count() == 1 && acc.6.contains(e) };
+            let old = if single { if *ty == 0 { acc.0.set_single_if_not_eq(c, Comp::<0>(*v)).1.map(|x| x.0) } else { acc.1.set_single_if_not_eq(c, Comp::<1>(*v)).1.map(|x| x.0) } }
+                else if *ty == 0 { acc.0.set_if_neq(c, e, Comp::<0>(*v)).map(|x| x.0) } else { acc.1.set_if_neq(c, e, Comp::<1>(*v)).map(|x| x.0) };
             log(format!("ret {}", opt(old)));
         }
         SAct::ReadComp(r, ty) =>
         {
             let Some(e) = resolve(*r) else { return };
             let Ctx::Full(acc) = ctx else { log("unsupported-in-exclusive".into()); return };
-            let v = if *ty == 0 { acc.0.get(e).ok().map(|x| x.0) } else { acc.1.get(e).ok().map(|x| x.0) };
+            let single = if *ty == 0 { acc.5.iter().count() == 1 && acc.5.contains(e) } else { acc.6.iter().count() == 1 && acc.6.contains(e) };
+            let v = if single { if *ty == 0 { Some(acc.0.single().1.0) } else { Some(acc.1.single().1.0) } }
+                else if *ty == 0 { acc.0.get(e).ok().map(|x| x.0) } else { acc.1.get(e).ok().map(|x| x.0) };
             log(format!("ret {}", opt(v)));
         }
         SAct::Remove(r, ty) =>
